@@ -78,10 +78,13 @@ ICUFormatNumberFunctor::~ICUFormatNumberFunctor()
 {
     using std::for_each;
 
-    for_each(
-        m_decimalFormatCache.begin(),
-        m_decimalFormatCache.end(),
-        DecimalFormatCacheStruct::DecimalFormatDeleteFunctor(m_memoryManager));
+    if (m_decimalFormatCache.empty() == false)
+    {
+        for_each(
+            m_decimalFormatCache.begin(),
+            m_decimalFormatCache.end(),
+            DecimalFormatCacheStruct::DecimalFormatDeleteFunctor(m_memoryManager));
+    }
 }
 
 
